@@ -23,7 +23,7 @@ RULE = ('cases: seeded declaration histories: 0-5 parameters declared through th
         'KeyError and leave build() unchanged. Non-trivial history: product of >=2 factors of length >=2 with a repeated value or a '
         'string/scalar factor, plus >=1 rejected op; distinct by (declaration signature, op trace). Products capped at 2000 in the histories; a scale regime builds products of 4 097-10 000 combinations and declarations of 1 100-2 100 parameters.')
 ASSUMPTIONS = ['collections are re-iterable (no one-shot iterators)', 'values compare with == (no NaN)']
-FLOORS = {'quick': {'cases_in_mode_debuglog': 251, 'lists_replaced_by_a_copy_of_themselves': 137, 'builds_interrupted_by_a_failing_collection': 287, 'edited_collections_declared_again': 380, 'bag_factors': 215, 'builds_compared': 10000, 'empty_factor_products': 500, 'no_parameter_products': 100, 'string_factors': 800,
+FLOORS = {'quick': {'same_object_again_factors': 448, 'cases_in_mode_debuglog': 251, 'lists_replaced_by_a_copy_of_themselves': 137, 'builds_interrupted_by_a_failing_collection': 287, 'edited_collections_declared_again': 380, 'bag_factors': 215, 'builds_compared': 10000, 'empty_factor_products': 500, 'no_parameter_products': 100, 'string_factors': 800,
                     'scalar_factors': 800, 'repeated_value_factors': 600, 'numpy_factors': 600, 'range_factors': 600,
                     'rejected_nonstr_name': 1000, 'rejected_duplicate': 760, 'rejected_unknown_removal': 1000,
                     'sibling_list_checks': 500, 'big_builds': 6, 'declarations_with_1000_plus_parameters': 3, 'constructor_declarations': 709, 'rejected_constructor': 100, 'reach:Batching.ParameterList.build': 10000},
@@ -167,6 +167,10 @@ def case_history(ctx, case):
         if x < 0.55:
             n = new_name()
             v, kind = gen_value(rng)
+            shared_ = [v0 for _, v0 in decl if len(factor(v0)) >= 2]
+            if shared_ and rng.random() < 0.2:
+                # the very same collection object declared for a second parameter (width and height both range over `sizes`)
+                v, kind = rng.choice(shared_), 'same_object_again'
             if n is None or not size_ok([(n, v)]):
                 continue
             pl.add_parameter(n, v)
@@ -249,7 +253,10 @@ def case_history(ctx, case):
             compare(ctx, pl, decl, 'after mutating a returned combination')
     import numpy as _np
     edited_obj = None
-    editable = [(n, v) for n, v in decl if isinstance(v, (list, _np.ndarray)) and len(v) >= 1 and not (isinstance(v, list) and any(isinstance(x, list) for x in v))]
+    # (an object declared for two parameters is left alone here: after an in-place edit only ONE of them is re-declared, and whether the
+    #  other declaration follows the edit - kept by reference - or not - copied at declaration time - is not the property's business)
+    editable = [(n, v) for n, v in decl if isinstance(v, (list, _np.ndarray)) and len(v) >= 1 and not (isinstance(v, list) and any(isinstance(x, list) for x in v))
+                and sum(1 for _, v2 in decl if v2 is v) == 1]
     if editable and rng.random() < 0.6:
         # the caller edits, in place, a collection object it had declared (and built with), and then declares THE SAME OBJECT again under
         # the same name - on a brand-new list, and on the old list after removing the name: a new declaration stands for what the object
